@@ -6,6 +6,12 @@ ALL = ["C%02d" % i for i in range(1, 37)]
 
 # id -> (design section, technique, level text, level note)
 CLAIMED = {
+ "C08": ("§2 C08", "field-write classification over the type-checked AST (reset / configuration / entry-set / scratch / fresh-before-use), save-restore idiom via must-pass-through, dominance of reset() in entry points, sibling call-sequence agreement, counter pairing with correlated-guard pruning",
+  "Decides that a reused Parser or Printer cannot observe state of an earlier use: each of the 41+24 fields is reset, or only written by option closures and the constructor, or set by every entry point, or scratch, or assigned fresh before every read, with a short reasoned table for five parser fields and one printer field written before they are read; that every entry point resets first and the convenience entry points only go through those; that Parse and StmtsSeq run the same prologue/loop/heredoc epilogue; and that the counters behind Incomplete() are decremented on every path. A new field without reset or classification, a dropped reset line or a leaked counter is one failing obligation.",
+  "The five written-before-read parser fields and wroteSemi are reasoned exceptions (one line each), only checked to be written at all. Does not decide equality of the statements yielded by the streaming APIs."),
+ "C10": ("§2 C10", "who-may-construct for error types, structural check of the Incomplete expression, counter and literal open/close pairing by must-pass-through on the CFG, cycle test for the offset update",
+  "Decides that ParseError and LangError are each built in one place, that every ParseError carries Incomplete = (at EOF and Incomplete()), that p.err is stored only by errPass and fill, that the open-node counter and the literal buffer (the two inputs of Incomplete()) are balanced on every non-error path, and that fill() advances the offset base once per call. These are the structural preconditions of 'errors are well-formed and incompleteness is reported'.",
+  "Three functions leave the literal open on purpose at end of input (named exceptions with reasons). Not decided: that every line-boundary prefix is flagged incomplete — a prefix cut inside a quoted here-document body is not (observed, see DESIGN.md), which no structural rule here captures."),
  "C35": ("§2 C35", "who-may-call over the module's reference graph for file-mutating os functions; CFG edge-cut domination for the Lstat/IsRegular guard; dominance ordering (fsync, close, rename) and must-pass-through (cleanup) in the pinned renameio dependency",
   "Decides that the only way shfmt modifies a path is the rename-based writer; that this call is dominated by a regular-file test on os.Lstat (not Stat) of the same path and writes that FileInfo's permission bits; and that in the pinned dependency the data goes to a temporary file removed on every incomplete exit, with fsync before close before rename on every path. Any additional write path, a Stat instead of Lstat, or a reordering in the dependency is a single failing obligation, whatever the kill point.",
   "Trusts rename(2) atomicity and fsync semantics; analysed for the unix build of renameio (its non-unix fallback is a plain write, as the source itself notes). Does not explore kill points."),
